@@ -17,13 +17,25 @@ package actionlint
 //@ func detectCyclicNode
 //@   props C18
 //@   anchor
+//@   requires v.status == 0
 //@   ensures result != nil ==> result.from != nil && result.to != nil && result.to.status == 1
 //@   ensures result != nil ==> (exists j :: 0 <= j && j < len(result.from.resolved) && result.from.resolved[j] == result.to)
+//@   ensures forall n: *jobNode :: old(n.status) != 0 ==> n.status == old(n.status)
+//@   ensures result == nil ==> v.status == 2
+//@   ensures result == nil ==> (forall n: *jobNode :: n.status == 1 ==> old(n.status) == 1)
+//@   loop "range v.resolved":
+//@     invariant forall n: *jobNode :: old(n.status) != 0 ==> n.status == old(n.status)
+//@     invariant v.status == 1
+//@     invariant forall n: *jobNode :: n.status == 1 && n != v ==> old(n.status) == 1
+// the search is complete: when no cycle is reported, every job has been visited (none is left New)
 //@ func detectFirstCycle
 //@   props C18
 //@   anchor
 //@   ensures result != nil ==> result.from != nil && result.to != nil && result.to.status == 1
 //@   ensures result != nil ==> (exists j :: 0 <= j && j < len(result.from.resolved) && result.from.resolved[j] == result.to)
+//@   ensures result == nil ==> (forall k: string :: nodes.has(k) ==> nodes[k].status != 0)
+//@   loop "range nodes":
+//@     invariant forall k: string :: visited(k) ==> nodes[k].status != 0
 
 // every edge recorded by collectCycle is an edge of the graph between active nodes
 //@ func collectCycle
